@@ -36,6 +36,10 @@ func (e *Exec) call(fr *Frame, st *BState, x *ssa.Call) SV {
 		if c.Method.FullName() == "(error).Error" {
 			return &Scalar{T: errMsg(e.val(fr, c.Value).(*IfaceV)), Ty: x.Type()}
 		}
+		if nm, ok := pureInvokes[c.Method.FullName()]; ok {
+			iv := e.val(fr, c.Value).(*IfaceV)
+			return &Scalar{T: ufun("ext."+nm, []string{SInt, SInt}, sortOfType(resT), iv.Tag, iv.Ref), Ty: resT}
+		}
 		// ghost call counter per interface method name (calls(Name) in contracts)
 		cn := "$calls." + c.Method.Name()
 		old := intLit(0)
@@ -231,10 +235,92 @@ func (e *Exec) callStatic(fr *Frame, st *BState, x *ssa.Call, f *ssa.Function, a
 		return &TupleV{Elems: vals}
 	}
 	e.note("abstracted call: " + full)
+	if inRepo && len(f.Blocks) > 0 {
+		// a module function that is neither inlined nor under contract: its frame is computed from its code
+		e.havocCalleeFrame(st, st.clone(), f, args, selectorOf(f), false)
+	} else {
+		e.havocPointees(st, args, "call."+f.Name()+".")
+	}
 	if tup, ok := x.Type().(*types.Tuple); ok && tup.Len() == 0 {
 		return &TupleV{}
 	}
 	return e.freshSV(x.Type(), "call."+f.Name(), st.reach, false)
+}
+
+// havocPointees: a library function without a contract may write through the pointers it is given (json.Decode(&out),
+// rows.Scan(&x), ...): everything reachable — by static type — from a pointer argument, directly or wrapped in an
+// interface value, gets arbitrary contents. (Elements of slice arguments are assumed not to be modified.)
+func (e *Exec) havocPointees(st *BState, args []SV, why string) {
+	keys := map[string]bool{}
+	for _, a := range args {
+		switch v := a.(type) {
+		case *PtrV:
+			if v.LV != nil && v.LV.Alloc != nil {
+				if _, ok := st.cells[v.LV.Alloc]; ok && len(v.LV.Path) == 0 {
+					et := v.LV.Alloc.Type().(*types.Pointer).Elem()
+					nv := e.freshSV(et, why+v.LV.Alloc.Comment, st.reach, false)
+					e.saneInput(st, et, nv, tTrue)
+					st.cells[v.LV.Alloc] = nv
+					reachPrefixes(et, keys, map[string]bool{}, false)
+				}
+				continue
+			}
+			if pt, ok := v.Ty.Underlying().(*types.Pointer); ok {
+				reachPrefixes(pt, keys, map[string]bool{}, true)
+			}
+		case *IfaceV:
+			if mi := madeIface[v]; mi != nil {
+				if pt, ok := mi.X.Type().Underlying().(*types.Pointer); ok {
+					reachPrefixes(pt, keys, map[string]bool{}, true)
+				}
+			}
+		}
+	}
+	if len(keys) == 0 {
+		return
+	}
+	for k, h := range st.heap {
+		for pre := range keys {
+			if strings.HasPrefix(k, pre) {
+				st.heap[k] = e.havocHeapKey(k, h, why)
+				break
+			}
+		}
+	}
+	epochCounter++
+	for pre := range keys {
+		st.hepoch[pre] = epochCounter
+	}
+	e.note("a library call without a contract is given pointers: everything reachable from them (by type) is havoc'd")
+}
+
+// reachPrefixes collects the heap-key prefixes of the memory reachable from a value of type t: the pointee object of
+// a pointer (top: t itself is the pointer handed over), the backing arrays of slices, recursively.
+func reachPrefixes(t types.Type, out map[string]bool, seen map[string]bool, top bool) {
+	tk := typeKey(t)
+	if seen[tk] {
+		return
+	}
+	seen[tk] = true
+	if isTime(t) {
+		return
+	}
+	switch u := t.Underlying().(type) {
+	case *types.Pointer:
+		if _, isStruct := u.Elem().Underlying().(*types.Struct); isStruct || top {
+			out["H|"+typeKey(u.Elem())+"|"] = true
+			reachPrefixes(u.Elem(), out, seen, false)
+		}
+	case *types.Slice:
+		out["A|"+typeKey(u.Elem())+"|"] = true
+		reachPrefixes(u.Elem(), out, seen, false)
+	case *types.Struct:
+		for i := 0; i < u.NumFields(); i++ {
+			reachPrefixes(u.Field(i).Type(), out, seen, false)
+		}
+	case *types.Array:
+		reachPrefixes(u.Elem(), out, seen, false)
+	}
 }
 
 var inlineStack []*ssa.Function
@@ -469,7 +555,7 @@ func init() {
 		inR := func(t *Term) *Term { return and(le(intLit(0), t), lt(t, sl.Len)) }
 		sj := mk(SInt, sig, j)
 		tj := mk(SInt, tau, j)
-		e.assume(mk(SBool, "forall", mk("binder", "(("+j.Op+" Int))"), implies(inR(j), and(inR(sj), inR(tj), eq(mk(SInt, sig, tj), j), eq(mk(SInt, tau, sj), j)))))
+		e.assumeHeavy(mk(SBool, "forall", mk("binder", "(("+j.Op+" Int))"), implies(inR(j), and(inR(sj), inR(tj), eq(mk(SInt, sig, tj), j), eq(mk(SInt, tau, sj), j)))))
 		build(et, "", func(path, sort string, _ types.Type) *Term {
 			k := heapKey("A", et, path)
 			arr := e.heapArr(st, k, arrSort(SInt, arrSort(SInt, sort)))
@@ -478,17 +564,45 @@ func init() {
 			nbound++
 			q := mk(SInt, fmt.Sprintf("q!q%d", nbound))
 			inRq := and(le(intLit(0), q), lt(q, sl.Len))
-			e.assume(mk(SBool, "forall", mk("binder", "(("+q.Op+" Int))"), eq(sel(na, add(sl.Off, q), sort),
+			e.assumeHeavy(mk(SBool, "forall", mk("binder", "(("+q.Op+" Int))"), eq(sel(na, add(sl.Off, q), sort),
 				ite(inRq, sel(old, add(sl.Off, mk(SInt, sig, q)), sort), sel(old, add(sl.Off, q), sort)))))
 			// ground instances for the first and the last element (the common "append, then sort" shape), so the
 			// solvers need not find them by quantifier instantiation
 			for _, idx := range []*Term{intLit(0), sub(sl.Len, intLit(1))} {
 				ti := mk(SInt, tau, idx)
-				e.assume(implies(inR(idx), and(inR(ti), eq(mk(SInt, sig, ti), idx), eq(sel(na, add(sl.Off, ti), sort), sel(old, add(sl.Off, idx), sort)))))
+				e.assumeHeavy(implies(inR(idx), and(inR(ti), eq(mk(SInt, sig, ti), idx), eq(sel(na, add(sl.Off, ti), sort), sel(old, add(sl.Off, idx), sort)))))
 			}
 			st.heap[k] = sto(arr, sl.Base, na)
 			return nil
 		})
+		// the order it establishes: no element is `less` than an element placed before it. The real `less` closure
+		// is executed on two quantified indices in the state after the call (loop-free closures only).
+		if mc, ok := closureOf[args[1]]; ok && !hasLoop(mc.Fn.(*ssa.Function)) {
+			fn := mc.Fn.(*ssa.Function)
+			nbound += 2
+			jb := mk(SInt, fmt.Sprintf("sj!q%d", nbound-1))
+			kb := mk(SInt, fmt.Sprintf("sk!q%d", nbound))
+			lo := len(e.assumes)
+			e.quiet++
+			saved := e.lastFrame
+			vals, out := e.run(fn, st.clone(), []SV{&Scalar{T: kb, Ty: types.Typ[types.Int]}, &Scalar{T: jb, Ty: types.Typ[types.Int]}}, closures[mc], 1)
+			e.lastFrame = saved
+			e.quiet--
+			facts := append([]*Term{}, e.assumes[lo:]...)
+			e.assumes = e.assumes[:lo]
+			if vals != nil {
+				ante := and(le(intLit(0), jb), lt(jb, kb), lt(kb, sl.Len), out.reach)
+				for _, f := range facts {
+					if hasBound(f) {
+						ante = and(ante, f)
+					} else {
+						e.assume(f) // a fact about the state, not about the two indices
+					}
+				}
+				e.assume(mk(SBool, "forall", mk("binder", "(("+jb.Op+" Int) ("+kb.Op+" Int))"), implies(ante, not(scal(vals[0])))))
+				e.note("sort.Slice: the result is ordered by the `less` closure given (its body executed on quantified indices)")
+			}
+		}
 		return &TupleV{}
 	}
 	// strings.Builder: the accumulated content is a ghost string per builder address
@@ -706,84 +820,7 @@ func (e *Exec) callByContract(fr *Frame, st *BState, x *ssa.Call, f *ssa.Functio
 		e.obligeNamed(st, fmt.Sprintf("call.%s.%s", label, clauseLabel(r, "requires", i)), x.Pos(), scal(env.evalGoal(r.Expr)))
 	}
 	pre := st.clone()
-	if !ct.Flags["pure"] && funcMayWrite(f, map[*ssa.Function]bool{}) {
-		// frame: the heap regions (by static type of the written location) the callee's code may store to
-		keys := map[string]bool{}
-		writeKeys(f, map[*ssa.Function]bool{}, keys)
-		if os.Getenv("GOVC_DEBUG") != "" {
-			fmt.Fprintf(os.Stderr, "frame of %s: %v\n", label, keys)
-		}
-		preFrontier := e.frontier(st)
-		for k, h := range st.heap {
-			for pre := range keys {
-				if strings.HasPrefix(k, pre) {
-					st.heap[k] = e.havocHeapKey(k, h, "call."+f.Name()+".")
-					break
-				}
-			}
-			if keys["J|new"] && !keys["J|"] && strings.HasPrefix(k, "J|") {
-				// the callee only creates JSON values and fills those: everything allocated before the call is unchanged
-				nh := e.fresh("call."+f.Name()+".new."+k, h.Sort)
-				nbound++
-				a := mk(SInt, fmt.Sprintf("a!q%d", nbound))
-				inner := h.Sort[len("(Array Int ") : len(h.Sort)-1]
-				e.assume(mk(SBool, "forall", mk("binder", "(("+a.Op+" Int))"), implies(lt(a, preFrontier), eq(sel(nh, a, inner), sel(h, a, inner)))))
-				st.heap[k] = nh
-			}
-		}
-		epochCounter++
-		for pre := range keys {
-			st.hepoch[pre] = epochCounter
-		}
-		old := e.frontier(st)
-		nf := e.fresh("call.frontier", SInt)
-		e.assume(le(old, nf))
-		st.ghost["$frontier"] = intSV(nf)
-		// captured variables of the caller that the callee (a literal of the caller) assigns
-		cbCells := map[*ssa.Alloc]bool{}
-		assignedCells(f, map[*ssa.Function]bool{}, cbCells)
-		for a := range cbCells {
-			if ownedBy(a, f) {
-				continue // the callee's own locals (a fresh activation), not variables of the caller
-			}
-			if _, ok := st.cells[a]; ok {
-				nv := e.freshSV(a.Type().(*types.Pointer).Elem(), "call."+a.Comment, st.reach, false)
-				e.saneInput(st, a.Type().(*types.Pointer).Elem(), nv, tTrue)
-				st.cells[a] = nv
-			}
-		}
-		// a pointer argument into the interior of a caller object (e.g. &c.sum): the callee may write through it
-		for _, a := range args {
-			if p, ok := a.(*PtrV); ok && p.LV != nil {
-				et := p.Ty.Underlying().(*types.Pointer).Elem()
-				nv := e.freshSV(et, "call."+f.Name()+".through", st.reach, false)
-				e.writeLV(st, p, et, nv)
-			}
-		}
-	}
-	if o, m := producesInto(f); o || m {
-		e.havocOutTraces(st, "call."+f.Name(), o, m)
-	}
-	// interface-call counters may advance by an unknown amount inside the callee (its ensures say by how much)
-	calleeInvokes := map[string]bool{}
-	invokedMethods(f, map[*ssa.Function]bool{}, calleeInvokes)
-	for m := range calleeInvokes {
-		if _, ok := st.ghost["$calls."+m]; !ok {
-			st.ghost["$calls."+m] = intSV(intLit(0))
-			pre.ghost["$calls."+m] = intSV(intLit(0))
-			ghostTypes["$calls."+m] = types.Typ[types.Int]
-		}
-	}
-	for k := range st.ghost {
-		if strings.HasPrefix(k, "$calls.") && calleeInvokes[strings.TrimPrefix(k, "$calls.")] {
-			nv := e.fresh("call."+k, SInt)
-			e.assume(le(scal(st.ghost[k]), nv))
-			st.ghost[k] = intSV(nv)
-		}
-		if m, ok := lastCallGhost(k); ok && calleeInvokes[m] {
-			st.ghost[k] = e.freshSV(ghostTypes[k], "call."+k, st.reach, false)
-		}
-	}
+	e.havocCalleeFrame(st, pre, f, args, label, ct.Flags["pure"])
 	var res SV
 	var results []SV
 	if tup, ok := x.Type().(*types.Tuple); ok {
@@ -881,4 +918,89 @@ func lastCallGhost(k string) (string, bool) {
 		}
 	}
 	return "", false
+}
+
+// havocCalleeFrame: the effects of a call to a module function that is not executed (called by contract, or
+// abstracted): the heap regions (by static type of the written location) its code may store to, the caller's
+// captured variables it assigns, what it may write through pointer arguments, its produce/metaSend output and the
+// interface-call counters of the methods it may invoke get arbitrary (monotone where applicable) contents.
+func (e *Exec) havocCalleeFrame(st, pre *BState, f *ssa.Function, args []SV, label string, pure bool) {
+	if !pure && funcMayWrite(f, map[*ssa.Function]bool{}) {
+		// frame: the heap regions (by static type of the written location) the callee's code may store to
+		keys := map[string]bool{}
+		writeKeys(f, map[*ssa.Function]bool{}, keys)
+		if os.Getenv("GOVC_DEBUG") != "" {
+			fmt.Fprintf(os.Stderr, "frame of %s: %v\n", label, keys)
+		}
+		preFrontier := e.frontier(st)
+		for k, h := range st.heap {
+			for pre := range keys {
+				if strings.HasPrefix(k, pre) {
+					st.heap[k] = e.havocHeapKey(k, h, "call."+f.Name()+".")
+					break
+				}
+			}
+			if keys["J|new"] && !keys["J|"] && strings.HasPrefix(k, "J|") {
+				// the callee only creates JSON values and fills those: everything allocated before the call is unchanged
+				nh := e.fresh("call."+f.Name()+".new."+k, h.Sort)
+				nbound++
+				a := mk(SInt, fmt.Sprintf("a!q%d", nbound))
+				inner := h.Sort[len("(Array Int ") : len(h.Sort)-1]
+				e.assume(mk(SBool, "forall", mk("binder", "(("+a.Op+" Int))"), implies(lt(a, preFrontier), eq(sel(nh, a, inner), sel(h, a, inner)))))
+				st.heap[k] = nh
+			}
+		}
+		epochCounter++
+		for pre := range keys {
+			st.hepoch[pre] = epochCounter
+		}
+		old := e.frontier(st)
+		nf := e.fresh("call.frontier", SInt)
+		e.assume(le(old, nf))
+		st.ghost["$frontier"] = intSV(nf)
+		// captured variables of the caller that the callee (a literal of the caller) assigns
+		cbCells := map[*ssa.Alloc]bool{}
+		assignedCells(f, map[*ssa.Function]bool{}, cbCells)
+		for a := range cbCells {
+			if ownedBy(a, f) {
+				continue // the callee's own locals (a fresh activation), not variables of the caller
+			}
+			if _, ok := st.cells[a]; ok {
+				nv := e.freshSV(a.Type().(*types.Pointer).Elem(), "call."+a.Comment, st.reach, false)
+				e.saneInput(st, a.Type().(*types.Pointer).Elem(), nv, tTrue)
+				st.cells[a] = nv
+			}
+		}
+		// a pointer argument into the interior of a caller object (e.g. &c.sum): the callee may write through it
+		for _, a := range args {
+			if p, ok := a.(*PtrV); ok && p.LV != nil {
+				et := p.Ty.Underlying().(*types.Pointer).Elem()
+				nv := e.freshSV(et, "call."+f.Name()+".through", st.reach, false)
+				e.writeLV(st, p, et, nv)
+			}
+		}
+	}
+	if o, m := producesInto(f); o || m {
+		e.havocOutTraces(st, "call."+f.Name(), o, m)
+	}
+	// interface-call counters may advance by an unknown amount inside the callee (its ensures say by how much)
+	calleeInvokes := map[string]bool{}
+	invokedMethods(f, map[*ssa.Function]bool{}, calleeInvokes)
+	for m := range calleeInvokes {
+		if _, ok := st.ghost["$calls."+m]; !ok {
+			st.ghost["$calls."+m] = intSV(intLit(0))
+			pre.ghost["$calls."+m] = intSV(intLit(0))
+			ghostTypes["$calls."+m] = types.Typ[types.Int]
+		}
+	}
+	for k := range st.ghost {
+		if strings.HasPrefix(k, "$calls.") && calleeInvokes[strings.TrimPrefix(k, "$calls.")] {
+			nv := e.fresh("call."+k, SInt)
+			e.assume(le(scal(st.ghost[k]), nv))
+			st.ghost[k] = intSV(nv)
+		}
+		if m, ok := lastCallGhost(k); ok && calleeInvokes[m] {
+			st.ghost[k] = e.freshSV(ghostTypes[k], "call."+k, st.reach, false)
+		}
+	}
 }
